@@ -17,8 +17,8 @@ def run(ctx):
         "{NULL,PRIVATE,TXT,SRV,MX,CNAME,AAAA,A} answered and the others timing out / NXDOMAIN / empty NOERROR; packed answers above "
         "512/1024/2048/4096/8192 octets dropped or truncated (TC set, no records); EDNS0 stripped from queries (answers then <=512); and "
         "transient faults during the negotiation only (queries number n..n+k-1 of one command letter y/v/z/o/r/s lost, n in 0..2, k in {1,2,5,9}, on six base paths; the path is as described before and after; for k <= 2 also with the ANSWERS lost, i.e. the server has acted on a request the client believes lost); and "
-        "resolvers that lower-/upper-case the host names inside answers (CNAME, MX, SRV targets), alone and with query-name folding, 7-bit names or a size limit, on paths where host-name records are what is left; the tunnel domain at 4..210 characters (17 lengths) on eight base paths (the room left in a query name shrinks with the domain until probes of the denser codecs no longer fit); and combinations (quick: 32 fixed + 8 seeded combinations; thorough: all 255 type subsets x 2 limits with case and refusal modes "
-        "rotating + seeded combinations = 980). The path is deterministic per message and the same instance serves handshake and data. "
+        "resolvers that only let host-name characters through (a query name with an octet other than a letter, a digit or the hyphen is dropped, or the octet is replaced by a hyphen), alone and with case folding, size limits, stripped EDNS0 and type subsets; resolvers that lower-/upper-case the host names inside answers (CNAME, MX, SRV targets), alone and with query-name folding, 7-bit names or a size limit, on paths where host-name records are what is left; the tunnel domain at 4..210 characters (17 lengths) on eight base paths (the room left in a query name shrinks with the domain until probes of the denser codecs no longer fit); and combinations (quick: 32 fixed + 8 seeded combinations; thorough: all 255 type subsets x 2 limits with case and refusal modes "
+        "rotating + seeded combinations = 1010). The path is deterministic per message and the same instance serves handshake and data. "
         "The real Handshake() runs; oracle: (1) it returns before 20000 exchanges (counted by the path; timeouts are virtual so a probe "
         "loop spins), is not found parked in a mutex Lock after 60 s without any exchange, and does not panic; (2) an error return is accepted; (3) after a nil return, keyed / all-0x00 / all-0xff / "
         "name-special ('.', '\\\\', space, 0x00-0x1f, 0x7f-0xff) payloads of 1, 2, f-1, f, f+1, 2f+3, 3f+1, 8f bytes (f = negotiated fragment size "
